@@ -266,12 +266,12 @@ def evaluate_backend(kind, inp, interp_class=None):
     phase = st.next_phase
     ta, ca, _ = drive(st, mode, more, 40)
     fresh = make_stepper(kind, prog, B.function_map(prog), interp_class)
-    fresh.set_up(raw.get("<t>"), raw.get("<dt>"),
-                 {k[len("<state>"):]: v for k, v in raw.items() if k.startswith("<state>")})
-    # values handed to set_up are copied by Stepper.set_up; re-establish aliasing-free copies of the rest
+    # `raw` is ONE deep copy of the failed stepper's persistent variables (aliasing between them kept)
+    fresh.obj.set_up(t_start=raw.get("<t>"), dt_start=raw.get("<dt>"),
+                     context={k[len("<state>"):]: v for k, v in raw.items() if k.startswith("<state>")})
     for k, v in raw.items():
         if k.startswith("<p>"):
-            fresh.set_var(k, copy.deepcopy(v))
+            fresh.set_var(k, v)
     fresh.next_phase = phase
     tb, cb, _ = drive(fresh, mode, more, 40)
     ka = B.error_kind(ca) if ca is not None else None
@@ -339,7 +339,7 @@ def replay(inp):
 def base_program(rng):
     """a c01 random program without the triggers of known C01 findings, with user functions"""
     g = B.Gen(rng, zero_trip=False, ret_names=False, guarded_bounds=False, printer_stress=False,
-              builtin_kwargs=False, funcs=True)
+              builtin_kwargs=False, funcs=True, call_boost=True)
     for _ in range(20):
         p = g.program()
         if len(p["funcs"]) >= 2 and not any(s[0] == "assign_sub" and not B.stmt_loops(s)
@@ -376,7 +376,7 @@ def bounded(payload):
     tier = payload.get("tier", "quick")
     seed = payload.get("seed", 0)
     rng = random.Random(seed)
-    n_prog = budget.get("programs", 60 if tier == "quick" else 1500)
+    n_prog = budget.get("programs", 100 if tier == "quick" else 2500)
     wall = budget.get("wall_s", 15 if tier == "quick" else 270)
     steps = budget.get("steps", 3)
     active = {e.get("fingerprint") for e in payload.get("known", []) if e.get("fingerprint") in FINGERPRINTS}
